@@ -133,6 +133,7 @@ def run(ctx):
         r.floor(B, n, 1, "Ok results of return_macro_parse_failure_fallback")
 
     placeholder_guard(ctx, "R01-d")
+    float_dot_siblings(ctx, "R01-e")
     C = r.rule("R01-c", "no defaulted sub-rewrite: a RewriteResult / Option<String> returned by a Rewrite method is never turned into "
                         "an empty string (unwrap_or_default, unwrap_or(String::new()), unwrap_or_else(|_| String::new()))")
     latent = {e["fn"]: e["reason"] for e in tab.get("defaulted", [])}
@@ -222,3 +223,38 @@ def placeholder_guard(ctx, rid):
         r.violation(rid, "MacroBranch::rewrite: placeholder guard does not cover the text the replacement rewrites",
                     "%s — a `z<name>` occurring in a string literal or comment of the macro body is turned into `$<name>`" % detail,
                     ["%s:%d" % (f.file, (co[0].line if co else f.line))])
+
+
+def float_dot_siblings(ctx, rid):
+    """R01-e: the printer of float literals and the predictor `float_lit_ends_in_dot` decide with the same predicates"""
+    p, r = ctx.p, ctx.r
+    r.rule(rid, "sibling agreement: rewrite_float_lit decides how a float literal is printed and float_lit_ends_in_dot predicts "
+                "whether that text ends in `.` (so that chains / ranges add parentheses or a space); both must derive the "
+                "`fractional part is zero` fact from the same functions (parse_float_symbol, is_fractional_part_zero) — a "
+                "prediction computed differently lets `1_000.000_000.f()` print as `1_000..f()`")
+    a = p.fn("rustfmt_nightly::expr::rewrite_float_lit")
+    b = p.fn("rustfmt_nightly::expr::float_lit_ends_in_dot")
+    if a is None or b is None:
+        r.undecidable(rid, "rewrite_float_lit / float_lit_ends_in_dot not found")
+        return
+    def preds(f):
+        out = set()
+        for x in p.body_family(f):
+            for c in x.calls():
+                n = c.name
+                if n.startswith("rustfmt_nightly::expr::") and ("float" in n.lower() or "FloatSymbolParts" in n):
+                    out.add(short(n))
+        return out
+    pa, pb = preds(a), preds(b)
+    core = {x for x in pa if "is_fractional_part_zero" in x or "parse_float_symbol" in x}
+    missing = core - pb
+    ok = bool(core) and not missing
+    r.instance(rid, "float printer / predictor predicates", "ok" if ok else "violation", "%s:%d" % (b.file, b.line),
+               "printer uses %s; predictor uses %s" % (sorted(pa), sorted(pb)))
+    if not core:
+        r.undecidable(rid, "rewrite_float_lit no longer uses parse_float_symbol / is_fractional_part_zero")
+    elif missing:
+        r.violation(rid, "float_lit_ends_in_dot does not use %s" % sorted(missing),
+                    "the text predicted for a float literal is computed differently from the text printed: the two can "
+                    "disagree (digit separators, exponents), and a literal printed with a trailing `.` then fuses with a "
+                    "following `.method()` or `..` into other tokens", ["%s:%d" % (b.file, b.line), "%s:%d" % (a.file, a.line)])
